@@ -179,6 +179,16 @@ def r1(prog, ev, rep, lt_fn, eq_fn, proc):
         rep.check(good, "C04-R1", key, prog.loc_of(vp), "(field 0, field 1)", "vals() of %s returns %s (operands swapped or mixed)" % (vn, body))
     # process: variant -> formula
     pt = ev.summary(proc)
+    # `f(match S {.. => x}, y)` is `match S {.. => f(x, y)}`: a result built once around a match on the variant
+    for _ in range(3):
+        if pt.k == "call" and len(pt.a) >= 2:
+            idx = [i for i, a_ in enumerate(pt.a[1:], 1) if isinstance(a_, Tm) and a_.k == "match"]
+            if len(idx) == 1:
+                i = idx[0]
+                m_ = pt.a[i]
+                pt = Tm("match", (m_.a[0], tuple((p_, g_, Tm("call", pt.a[:i] + (b_,) + pt.a[i + 1:], pt.n)) for p_, g_, b_ in m_.a[1])), m_.n)
+                continue
+        break
     if pt.k != "match":
         rep.unrecognised("C04-R1", "process", prog.loc_of(proc), "not a match on the comparison variant")
         return
